@@ -6,13 +6,17 @@
    and not below any of them ("superior", Knuth's generalisation of Dijkstra): AstSize,
    depth-weighted and per-operator weighted sizes, also with u64 saturation; and the table does not
    depend on how ties in the priority queue are broken.
+   Also PROVED (Extract/LazyQueue.v): the LAZY PRIORITY QUEUE formulation that Extractor::new actually uses — leaves are
+   queued first; pop an entry of minimal cost, skip it if its class is tabled, else table the class and queue every
+   usage whose children are now all tabled — computes the same table, for every minimal pop discipline (first or last
+   among equal costs), with or without pruning of entries whose class is tabled, with fuel 1 + number of nodes.
    NOT PROVED: that the concrete extractor model (Extract/Extractor.v, the Gallina mirror of
    src/extract/mod.rs on top of the e-graph model) is an instance of the abstract algorithm, and
    membership of the extracted term.  Per run: best costs of all handles under the three cost
    functions are compared with the extractor model, and on the implementation the extracted term is
    re-looked-up (must be equal to the query), its cost recomputed, its free slots checked. *)
 From Coq Require Import List Arith.
-From SE Require Import Extract.Knuth.
+From SE Require Import Extract.Knuth Extract.LazyQueue.
 
 Theorem C06_table_is_minimum : forall f, monotone f -> superior f ->
   forall nodes n tbl,
@@ -40,3 +44,23 @@ Theorem C06_tie_break_irrelevant : forall f (good : nat -> Prop),
   forall c, run_with pick1 n c = run_with pick2 n c.
 Proof. exact tie_break_irrelevant. Qed.
 Print Assumptions C06_tie_break_irrelevant.
+
+Theorem C06_lazy_queue_table_is_minimum : forall f, monotone f -> superior f ->
+  forall (prune : bool) (pop : queue -> option (entry * queue)), min_pop pop ->
+  forall (nodes : list node) (tbl : table), lazy_run f prune pop nodes = tbl ->
+    (forall c k, tbl c = Some k -> derivable f nodes c k /\ (forall k', derivable f nodes c k' -> k <= k')) /\
+    (forall c, tbl c = None -> forall k, ~ derivable f nodes c k).
+Proof. exact lazy_min_general. Qed.
+Print Assumptions C06_lazy_queue_table_is_minimum.
+
+Theorem C06_lazy_queue_is_knuth : forall f, monotone f -> superior f ->
+  forall (prune : bool) (pop : queue -> option (entry * queue)), min_pop pop ->
+  forall (nodes : list (nat * list nat * nat)) (n : nat),
+    (forall c chs w, List.In (c, chs, w) nodes -> c < n) ->
+    forall c, lazy_run f prune pop nodes c = run f nodes n c.
+Proof. exact lazy_run_eq_run. Qed.
+Print Assumptions C06_lazy_queue_is_knuth.
+
+Theorem C06_first_and_last_minimum_are_minimal_pops : forall last : bool, min_pop (pop_tb last).
+Proof. exact pop_tb_min_pop. Qed.
+Print Assumptions C06_first_and_last_minimum_are_minimal_pops.
